@@ -104,7 +104,7 @@ func genC06b(r *rng, n int) {
 		if len(m.buf) > 400 {
 			continue
 		}
-		opts := walkOpts(g.r) &^ (o3UseNativeSkip | o3ValueMapping | o3ThriftBase | o3ConvertException)
+		opts := walkOpts(g.r) & (o3Int642String | o3ByteAsUint8 | o3NoBase64Binary | o3DisallowUnknown) // the four options emit612 passes on
 		for _, in := range thriftVariants(g.r, 0, m, 40, 2) {
 			emit612(desc, dfs, in.b, opts)
 			made++
